@@ -102,7 +102,7 @@ def bad(name, st, model, native=None):
     if st == "unknown":
         return dict(status="undecided", backend="z3", detail=f"{name}: z3 unknown")
     vals = {str(d): str(model[d]) for d in model.decls() if d.arity() == 0 and "!" not in str(d)}
-    nat = native_alignment()
+    nat = native_alignment() if "generate_data" not in name else (native_param("n") or native_param("n1") or native_param("bad"))
     return dict(status="violated", failure="value", backend="pyvc+z3", detail=f"{name} refuted; counter-model {vals}",
                 replay=dict(native_disagrees=bool(nat), solver_model=vals, native=nat or "native loaders stayed aligned",
                             expected="every batch row comes from one original row", inputs=vals))
@@ -148,9 +148,10 @@ def obs_constructor_rejects():
     return FnObligation(name, run, [DG + "DataGeneratorObservations.__post_init__"])
 
 
-def param_generate(user_shape):
-    """user_shape: 'n' | 'n1' | 'bad' — shape of the user table for key 'u'; key 'r' is sampled from its range"""
-    name = f"C15/DataGeneratorParameter.generate_data/ensures[user_table={user_shape}]"
+def param_generate(user_shape, method="uniform"):
+    """user_shape: 'n' | 'n1' | 'bad' — shape of the user table for key 'u'; key 'r' is sampled from its range
+    (uniform draw, or the regular grid lo + k (hi - lo) / n).  'u' also has a range: the table has priority."""
+    name = f"C15/DataGeneratorParameter.generate_data/ensures[user_table={user_shape}{'' if method == 'uniform' else ',method=' + method}]"
     def run(seed):
         t0 = time.time()
         ex = Executor(SRC)
@@ -161,7 +162,7 @@ def param_generate(user_shape):
         user_dict = {"u": ut}
         try:
             rec = ex.construct("DataGeneratorParameter", [{"r": Key(), "u": Key()}, n, b], dict(param_ranges={"r": (lo, hi), "u": (lo - 5, lo - 4)},
-                                                                                             method="uniform", user_data=user_dict), pre0)
+                                                                                             method=method, user_data=user_dict), pre0)
             raised = None
         except pyvc.PyRaise as e:
             raised = e.exc_name
@@ -184,8 +185,9 @@ def param_generate(user_shape):
                  ("user_table_has_priority", pn["u"].elem(k, 0) == (ut.elem(k) if user_shape == "n" else ut.elem(k, 0))),
                  ("user_shape", z3.And(zint(pn["u"].shape[0]) == n, zint(pn["u"].shape[1]) == 1)),
                  ("sampled_shape", z3.And(zint(pn["r"].shape[0]) == n, zint(pn["r"].shape[1]) == 1)),
-                 ("one_draw_for_the_sampled_key_only", z3.BoolVal(len(us) == 1)),
-                 ("sampled_from_own_range", z3.And(us[0][0] == lo, us[0][1] == hi) if us else z3.BoolVal(False)),
+                 ("one_draw_for_the_sampled_key_only", z3.BoolVal(len(us) == (1 if method == "uniform" else 0))),
+                 ("sampled_from_own_range", (z3.And(us[0][0] == lo, us[0][1] == hi) if us else z3.BoolVal(False)) if method == "uniform"
+                  else (pyvc.zreal(pn["r"].elem(k, 0)) == lo + z3.ToReal(k) * (hi - lo) / z3.ToReal(n))),
                  ("first_call_reshuffles", z3.And(*[zint(v) == INT32_MAX - b - 1 for v in rec.fields["curr_param_idx"].values()])),
                  ("user_dict_not_modified", z3.BoolVal(sorted(user_dict.keys()) == ["u"] and user_dict["u"] is ut))]
         return finish(name, goals, pre, ex, t0)
@@ -261,20 +263,34 @@ def native_alignment():
 
 def native_param(user_shape):
     import jax, jax.numpy as jnp
+    import numpy as np
     from jinns.data._DataGenerators import DataGeneratorParameter
     nn = 6
-    tab = {"n": jnp.arange(nn, dtype=float), "n1": jnp.arange(nn, dtype=float)[:, None], "bad": jnp.zeros((nn, 2)), "short": jnp.zeros((nn - 1, 1))}[user_shape]
-    try:
-        g = DataGeneratorParameter(jax.random.PRNGKey(0), nn, 3, {"r": (0.0, 1.0)}, "uniform", {"u": tab})
-    except ValueError as e:
-        return None if user_shape in ("bad", "short") else [f"DataGeneratorParameter rejects a user table of shape {tuple(tab.shape)}: ValueError: {e}"]
-    if user_shape in ("bad", "short"):
-        return [f"DataGeneratorParameter accepts a user table of shape {tuple(tab.shape)}"]
+    tab = {"n": jnp.arange(nn, dtype=float) + 100.0, "n1": jnp.arange(nn, dtype=float)[:, None] + 100.0, "bad": jnp.zeros((nn, 2)),
+           "short": jnp.zeros((nn - 1, 1))}[user_shape]
+    for method in ("uniform", "grid"):
+        for ranges in ({"r": (0.0, 1.0)}, {"r": (0.0, 1.0), "u": (-5.0, -4.0)}):
+            what = f"DataGeneratorParameter(n={nn}, param_ranges={ranges}, method={method!r}, user_data={{'u': table of shape {tuple(tab.shape)}}})"
+            try:
+                g = DataGeneratorParameter(jax.random.PRNGKey(0), nn, 3, dict(ranges), method, {"u": tab})
+            except ValueError as e:
+                if user_shape in ("bad", "short"):
+                    continue
+                return [f"{what} rejects the table: ValueError: {e}"]
+            if user_shape in ("bad", "short"):
+                return [f"{what} accepts the table"]
+            got = np.asarray(g.param_n_samples["u"]).reshape(-1)
+            if sorted(got.tolist()) != sorted(np.asarray(tab).reshape(-1).tolist()):
+                return [f"{what}: the samples of 'u' are {got.tolist()}, not the user's table"]
+            r = np.asarray(g.param_n_samples["r"]).reshape(-1)
+            if r.min() < 0.0 or r.max() > 1.0:
+                return [f"{what}: samples of 'r' outside its range"]
     return None
 
 
 def obligations(tier):
     obs = [obs_alignment(2, 1, ("a", "b")), obs_alignment(1, 2, ("a",)), obs_alignment(1, 1, ()), index_invariant(),
            obs_constructor(("n", 2), ("n", 1)), obs_constructor(("n",), ("n",)), obs_constructor_rejects(),
-           param_generate("n"), param_generate("n1"), param_generate("bad"), param_generate("short"), multi_loader()]
+           param_generate("n"), param_generate("n1"), param_generate("bad"), param_generate("short"),
+           param_generate("n", "grid"), param_generate("n1", "grid"), param_generate("bad", "grid"), multi_loader()]
     return obs
